@@ -885,6 +885,19 @@ pub fn check_c14(case: &BuildCase, b: &mut Built, f: &BuildFacts) -> Vec<Violati
     let r = catch_unwind(AssertUnwindSafe(|| {
         let mut out = vec![];
         let exp: Vec<usize> = (0..n).collect();
+        // copies of the graph value are graphs too: one made by `clone()`, one made by
+        // `clone_from` onto another graph value, walked both ways
+        {
+            let c1 = g.clone();
+            let mut c2 = crate::model::small_other_graph();
+            c2.clone_from(g);
+            for (name, c) in [("clone()", &c1), ("clone_from()", &c2)] {
+                let ids: Vec<usize> = c.iter().map(|f| f.id).collect();
+                check_order(&mut out, &format!("{name} of the built graph: iter"), &ids, f, false);
+                let ids: Vec<usize> = c.iter_rev().map(|f| f.id).collect();
+                check_order(&mut out, &format!("{name} of the built graph: iter_rev"), &ids, f, true);
+            }
+        }
         for (wi, w) in walks.iter().enumerate() {
             let at = format!("walk #{wi} {w:?}");
             match w {
